@@ -66,6 +66,16 @@ def path_conditions(func_node: ast.AST, target: ast.AST) -> list[tuple[ast.AST, 
 				out.append((par.test, False))
 		elif isinstance(par, ast.While) and any(cur is s for s in par.body):
 			out.append((par.test, True))
+		elif isinstance(par, ast.BoolOp):
+			# short circuit: a later operand is evaluated only when the earlier ones were all true (and) / all false (or)
+			for v in par.values:
+				if v is cur:
+					break
+				out.append((v, isinstance(par.op, ast.And)))
+		elif isinstance(par, (ast.ListComp, ast.SetComp, ast.GeneratorExp, ast.DictComp)) and not any(cur is g for g in par.generators):
+			for g in par.generators:
+				for i in g.ifs:
+					out.append((i, True))
 		# earlier sibling guards in the same block
 		for field in ('body', 'orelse', 'finalbody'):
 			block = getattr(par, field, None)
